@@ -266,6 +266,20 @@ impl<F: Fam> Ctx<F> {
                     if n1 != want.len() || n2 != want.len() || k1 != want.len() || v1 != want.len() {
                         return Err(format!("cloned parallel iterators counted {} / {} / {} / {} elements, map has {}", n1, n2, k1, v1, want.len()));
                     }
+                    // sources that repeat keys (last pair wins, as with extend), of odd and even
+                    // lengths so that rayon splits them into pieces of unequal size
+                    for len in [3usize, 5, 9 + rep as usize, 14 + (want.len() % 7), 33] {
+                        let dups: Vec<(F::K, F::V)> = (0..len as u32).map(|i| (F::K::mk(0x7600_0000 + (i * 7 + rep as u32) % 3), F::V::mk(i))).collect();
+                        let mut d1 = m.clone();
+                        let mut d2 = m.clone();
+                        d1.par_extend(dups.clone());
+                        d2.extend(dups.clone());
+                        let g1 = Map::<F>::from_par_iter(dups.clone());
+                        let g2: Map<F> = dups.into_iter().collect();
+                        if d1 != d2 || d2 != d1 || g1 != g2 || g2 != g1 {
+                            return Err(format!("par_extend / from_par_iter of {} pairs over 3 repeated keys differs from extend / from_iter (the last pair for a key must win)", len));
+                        }
+                    }
                     let f1 = Map::<F>::from_par_iter(items.clone());
                     let f2: Map<F> = items.into_iter().collect();
                     if f1 != f2 || f1.len() != f2.len() {
